@@ -72,7 +72,7 @@ func (a *Accounts) NewAccountWithAddress(ctx context.Context, addr sdk.AccAddres
 }
 
 // Committed-state accessors for oracles.
-func (a *Accounts) Has(addr sdk.AccAddress) bool       { return a.HasAccount(nil, addr) }
+func (a *Accounts) Has(addr sdk.AccAddress) bool         { return a.HasAccount(nil, addr) }
 func (a *Accounts) Get(addr sdk.AccAddress) sdk.AccountI { return a.GetAccount(nil, addr) }
 
 // Feegrant is a fake x/feegrant keeper: grants are flags in store "verif-feegrant".
@@ -101,7 +101,9 @@ func (f *Feegrant) GrantAllowance(ctx context.Context, granter, grantee sdk.AccA
 }
 
 // SetGrant builds the pre-state.
-func (f *Feegrant) SetGrant(granter, grantee sdk.AccAddress) { f.st(nil).Set(grantKey(granter, grantee), []byte{1}) }
+func (f *Feegrant) SetGrant(granter, grantee sdk.AccAddress) {
+	f.st(nil).Set(grantKey(granter, grantee), []byte{1})
+}
 
 func (f *Feegrant) HasGrant(granter, grantee sdk.AccAddress) bool {
 	return f.st(nil).Has(grantKey(granter, grantee))
